@@ -162,8 +162,8 @@ def ctor_rules(rep, prog):
 
 
 def run(prog, rep, tier):
-    from ..sym import UNIT_HELPERS
-    inl = lambda f: f.qname == U + "matrix_block" or (f.name.startswith("_") and not f.name.startswith("__") and f.qname not in UNIT_HELPERS)
+    from ..sym import UNIT_HELPERS, private_class
+    inl = lambda f: f.qname == U + "matrix_block" or (((f.name.startswith("_") and not f.name.startswith("__")) or private_class(f)) and f.qname not in UNIT_HELPERS)
     M = MNF(symmetric=[C])
     # ---------------------------------------------------------------- conditional
     f = need(prog, ND + "conditional")
